@@ -102,6 +102,10 @@ def _snapshot_results(fs):
 def reentry(ctx, fs, world, step):
     """C15: running again must return the same results with zero further
     likelihood evaluations (counted at nessai's API and at the raw model)."""
+    if not fs.ns.finalised:
+        # a run cut by the iteration cap is not "finished": rerunning it is probed, not judged
+        ctx.probe("rerun_of_capped_run_not_judged")
+        return
     before = _snapshot_results(fs)
     api0, seam0 = ctx.api_points, SEAM.points
     if step == "rerun":
